@@ -383,6 +383,8 @@ def gen_heter_script(rng, name, max_ops=35, ncb=5, lvalue_enqueue=False):
             lines.append("do hdispatch %d %d %d" % (k, rng.randrange(7), rng.randint(0, 20)))
         elif r < 0.70:
             lines.append("do henqueue %d %d %d" % (k, rng.randrange(7 if lvalue_enqueue else 6), rng.randint(0, 20)))
+        elif r < 0.73:
+            lines.append("do hcopy")
         elif r < 0.78:
             lines.append("do hprocessone")
         elif r < 0.86:
